@@ -327,4 +327,53 @@ func genC17(r *rng, tier string, res *Result) {
 	for i := 0; i < len(cases) && i < 2; i++ {
 		res.sample(cases[i], 25)
 	}
+	// a file that grows past the mapped length in ONE write: a value larger than twice the smallest
+	// mapping a shipped configuration could plausibly use must read back identically everywhere
+	big := make([]byte, 70<<20)
+	for i := range big {
+		big[i] = byte(i*7 + i>>11)
+	}
+	sums := map[string]string{}
+	for _, fsc := range []struct {
+		name string
+		fsys fs.FileSystem
+		root string
+	}{
+		{"mem", fs.Mem, fmt.Sprintf("c17big-%d", res.Seed)},
+		{"os", fs.OS, filepath.Join(tmp, "big-os")},
+		{"osmmap", fs.OSMMap, filepath.Join(tmp, "big-mm")},
+	} {
+		func() {
+			defer func() {
+				if rec := recover(); rec != nil {
+					sums[fsc.name] = fmt.Sprint("panic: ", rec)
+				}
+			}()
+			db, err := pogreb.Open(fsc.root, &pogreb.Options{FileSystem: fsc.fsys})
+			if err != nil {
+				sums[fsc.name] = "open: " + err.Error()
+				return
+			}
+			defer db.Close()
+			_ = db.Put([]byte("small"), []byte("v"))
+			if err := db.Put([]byte("big"), big); err != nil {
+				sums[fsc.name] = "put: " + err.Error()
+				return
+			}
+			v, err := db.Get([]byte("big"))
+			if err != nil {
+				sums[fsc.name] = "get: " + err.Error()
+				return
+			}
+			sums[fsc.name] = fmt.Sprintf("%d:%x", len(v), md5.Sum(v))
+		}()
+	}
+	want := fmt.Sprintf("%d:%x", len(big), md5.Sum(big))
+	for name, got := range sums {
+		if got != want {
+			res.Findings = append(res.Findings, &Finding{Kind: "spec", Case: "C17/big-value", Cmd: "Put of a 70 MiB value, then Get, on fs." + name,
+				Impl: []string{clip(got)}, Expected: []string{want}, Program: []string{"open", "put small v", "put big <70 MiB>", "get big"}})
+		}
+	}
+	res.Tags["big_value_runs"] = len(sums)
 }
